@@ -854,6 +854,7 @@ func Run(r *core.Run) {
 	if !strictNonUnitOnHomoOps {
 		r.Assume("'ciphertexts sharing a factor with N are refused' is required of Decrypt only; HomoAdd/HomoMult must enforce the range guards (acceptances of non-units there are counted as nonunit_accepted_by_homo_ops)")
 	}
+	r.Assume("with the library's default concurrency the producer goroutines share the reader, so WHICH key GenerateKeyPair returns for a seed is scheduler-dependent (distinct_generated_moduli varies between runs); the number of cases per returned key is fixed")
 	r.Assume("requested modulus lengths are even (GenerateKeyPair gives each prime len/2 bits)")
 	r.Assume("freshness (two encryptions differ) is asserted only for moduli of >= 100 bits, where a repeated randomness is not a legitimate event")
 	r.Assume("hand-built tiny/small keys fill N, PhiN, LambdaN, P, Q exactly as GenerateKeyPair does; the small ones are exactly the keys the generator can emit at that length")
